@@ -29,6 +29,10 @@ TS4 = (6, 5, 7, 6)
 TS5 = (2, 6, 3000, 7)
 BASE = 0x1000
 BAD = 9999            # sentinel for "not decodable"
+# per-frame constant added to all logits of a frame by the CTC stub (period 4; the first frame of every window, pad // SUB = 8,
+# is a multiple of 4): a constant per frame changes no posterior, so it must change neither the sparse keep-set nor anything else,
+# but it gives the rows of one line very different magnitudes (float64: exp underflows beyond ~745)
+SHIFTS = np.array([0.0, 800.0, -800.0, 300.0])
 CASE_TIMEOUT = 120
 MAX_CALLS = 2000      # run_ocr calls per process_lines call before the case is declared non-terminating
 
@@ -110,7 +114,7 @@ class StubEngine(BaseEngineLineOCR):
         s4 = np.asarray(S4)[img % 4]
         s5 = np.asarray(S5)[img % 4]
         weights = np.stack([WA + img, WA + col % 1000, WA + col // 1000, WA + nz, s4, s5], axis=2).astype(np.float64)
-        logits = np.log(weights)
+        logits = np.log(weights) + SHIFTS[np.arange(f) % 4][None, :, None]
         texts = []
         for i in range(n):
             sel = nz[i] > 0
@@ -217,8 +221,10 @@ def project_line(text, lg, coords, transformer, base_off=0):
         else:
             a, b = 0, arr.shape[0]
         win = arr[a:b]
-        wts = _recover(win)
         g = np.arange(a, b)
+        if not transformer:
+            win = np.where(win != 0, win - SHIFTS[g % 4][:, None], 0.0)      # undo the stub's per-frame constant (0 = not stored)
+        wts = _recover(win)
         if transformer:
             if wts.shape[1] == 4:
                 img = wts[:, 0] - WA
